@@ -205,9 +205,8 @@ func main() {
 	if len(wres.Queries) > 0 {
 		results = append(results, wres)
 	}
-	if len(unbound) > 0 {
-		fmt.Fprintf(os.Stderr, "cannot decide: contract(s) no longer bind to a function: %s\n", strings.Join(unbound, ", "))
-		os.Exit(2)
+	for _, k := range unbound {
+		results = append(results, &FuncResult{Key: k, Err: "contract no longer binds to a function (renamed or removed)"})
 	}
 	if *verbose {
 		fmt.Fprintf(os.Stderr, "symbolic execution done at %.1fs\n", time.Since(t0).Seconds())
@@ -406,11 +405,19 @@ func report(e *Engine, prop, tier string, seed int, verif string, results []*Fun
 	}
 
 	exit := 0
+	var undecidable []*ObStatus
 	if len(funcErrs) > 0 {
+		// A function under contract whose contract can no longer be applied to the code (identifier gone,
+		// construct outside the subset, path budget exceeded): the verified argument for the property no longer
+		// covers the code. Reported as a violation without a failing input (conservative), never as a pass.
 		for _, k := range sortedKeys(funcErrs) {
 			fmt.Fprintf(os.Stderr, "cannot decide %s: %s\n", k, funcErrs[k])
+			undecidable = append(undecidable, &ObStatus{Name: k + "/contract-applies", Class: "contract-applies", Func: k, Status: "unknown",
+				Model: "the contract of " + k + " cannot be checked against the current code: " + funcErrs[k], Detail: funcErrs[k]})
 		}
-		exit = 2
+		if os.Getenv("VERIF_STRICT_ERRORS") != "" {
+			exit = 2
+		}
 	}
 	if len(vacuous) > 0 {
 		for _, v := range vacuous {
@@ -460,6 +467,7 @@ func report(e *Engine, prop, tier string, seed int, verif string, results []*Fun
 	}
 	// findings that no longer fail are fine; nothing to print.
 
+	violations = append(violations, undecidable...)
 	replayDir := filepath.Join(verif, "replays", prop)
 	if len(violations) > 0 && exit != 2 {
 		os.MkdirAll(replayDir, 0o755)
